@@ -24,7 +24,7 @@ Qed.
 
 Lemma set_erase_notin x s : ~ In x s -> set_erase x s = s.
 Proof.
-  induction s as [|y s IH]; intros H; cbn; [reflexivity|].
+  unfold set_erase. induction s as [|y s IH]; intros H; cbn; [reflexivity|].
   destruct (N.eqb y x) eqn:E.
   - apply N.eqb_eq in E. subst y. exfalso. apply H. left. reflexivity.
   - cbn. rewrite IH; [reflexivity|]. intros Hi. apply H. right. exact Hi.
@@ -33,6 +33,11 @@ Qed.
 Lemma set_erase_fresh x s : ~ In x s -> set_erase x (x :: s) = s.
 Proof.
   intros H. cbn. rewrite N.eqb_refl. cbn. apply set_erase_notin. exact H.
+Qed.
+
+Lemma filter_length_bound {A} (f : A -> bool) (l : list A) : length (filter f l) <= length l.
+Proof.
+  induction l as [|a l IH]; cbn; [lia|]. destruct (f a); cbn; lia.
 Qed.
 
 (* ---------- the reference search ---------- *)
@@ -139,6 +144,223 @@ Section Proofs.
 
   Lemma preds_length x : length (preds x) <= length g.
   Proof.
-    unfold FindCycle.preds, preds_unsorted. rewrite sort_keys_length, map_length. apply filter_length_le.
+    unfold FindCycle.preds, preds_unsorted. rewrite sort_keys_length, map_length. apply filter_length_bound.
+  Qed.
+
+  (* ---------- one iteration of the loop ---------- *)
+
+  (* the second half of an iteration: visit the next predecessor or pop *)
+  Definition advance (f : nat) (x : key) (i : nat) (rest : list work_item) (cl its : list key) : fc_result :=
+    if negb (Nat.eqb i (length (preds x))) then
+      fc_loop klt g f ((nth i (preds x) 0%N, O) :: (x, S i) :: rest) cl its
+    else fc_loop klt g f rest (tl cl) (set_erase x its).
+
+  Lemma loop_first f x rest cl its : mem_key x its = false ->
+    fc_loop klt g (S f) ((x, O) :: rest) cl its = advance f x 0 rest (x :: cl) (x :: its).
+  Proof.
+    intros H. cbn [fc_loop]. cbn [Nat.eqb andb]. unfold set_insert. rewrite H. reflexivity.
+  Qed.
+
+  Lemma loop_found f x rest cl its : mem_key x its = true ->
+    fc_loop klt g (S f) ((x, O) :: rest) cl its = FcDone (rev cl ++ [x]).
+  Proof.
+    intros H. cbn [fc_loop]. cbn [Nat.eqb andb]. rewrite H. reflexivity.
+  Qed.
+
+  Lemma loop_next f x i rest cl its :
+    fc_loop klt g (S f) ((x, S i) :: rest) cl its = advance f x (S i) rest cl its.
+  Proof. reflexivity. Qed.
+
+  Lemma loop_empty f cl its : fc_loop klt g (S f) [] cl its = FcDone (rev cl).
+  Proof. reflexivity. Qed.
+
+  (* ---------- the loop computes the reference search ---------- *)
+
+  Definition sim_ok (k : nat) : Prop := forall x items rest cl,
+    match dfs k x items with
+    | DFound r => forall f, fc_loop klt g (dfs_steps k x items + f) ((x, O) :: rest) cl items = FcDone (rev cl ++ r)
+    | DExhausted => forall f, fc_loop klt g (dfs_steps k x items + f) ((x, O) :: rest) cl items = fc_loop klt g f rest cl items
+    | DDepth => True
+    end.
+
+  Lemma children_sim k x items rest cl :
+    sim_ok k -> ~ In x items ->
+    forall todo done, preds x = done ++ todo ->
+    let F := fun p => dfs k p (x :: items) in
+    let St := fun p => dfs_steps k p (x :: items) in
+    match scan_children F todo with
+    | DFound r => forall f, advance (children_steps F St todo + f) x (length done) rest (x :: cl) (x :: items) = FcDone (rev (x :: cl) ++ r)
+    | DExhausted => forall f, advance (children_steps F St todo + f) x (length done) rest (x :: cl) (x :: items) = fc_loop klt g f rest cl items
+    | DDepth => True
+    end.
+  Proof.
+    intros Hk Hx todo. induction todo as [|p t IH]; intros done Hps F St.
+    - cbn [scan_children children_steps]. intros f. unfold advance.
+      rewrite Hps, app_nil_r, Nat.eqb_refl. cbn [negb tl]. rewrite set_erase_fresh by exact Hx. reflexivity.
+    - cbn [scan_children children_steps].
+      assert (Hlt : Nat.eqb (length done) (length (preds x)) = false).
+      { apply Nat.eqb_neq. rewrite Hps, app_length. cbn [length]. lia. }
+      assert (Hnth : nth (length done) (preds x) 0%N = p).
+      { rewrite Hps. rewrite app_nth2 by lia. rewrite Nat.sub_diag. reflexivity. }
+      pose proof (Hk p (x :: items) ((x, S (length done)) :: rest) (x :: cl)) as Hp.
+      fold (F p) in Hp. fold (St p) in Hp.
+      destruct (F p) as [r| |] eqn:EF.
+      + intros f. unfold advance. rewrite Hlt. cbn [negb]. rewrite Hnth. apply Hp.
+      + specialize (IH (done ++ [p])). rewrite <- app_assoc in IH. specialize (IH Hps).
+        cbv zeta in IH. fold F in IH. fold St in IH.
+        rewrite app_length in IH. cbn [length] in IH. replace (length done + 1) with (S (length done)) in IH by lia.
+        destruct (scan_children F t) as [r| |] eqn:ES.
+        * intros f. unfold advance at 1. rewrite Hlt. cbn [negb]. rewrite Hnth.
+          replace (St p + 1 + children_steps F St t + f) with (St p + S (children_steps F St t + f)) by lia.
+          rewrite Hp. rewrite loop_next. apply IH.
+        * intros f. unfold advance at 1. rewrite Hlt. cbn [negb]. rewrite Hnth.
+          replace (St p + 1 + children_steps F St t + f) with (St p + S (children_steps F St t + f)) by lia.
+          rewrite Hp. rewrite loop_next. apply IH.
+        * exact I.
+      + exact I.
+  Qed.
+
+  Lemma fc_loop_dfs k : sim_ok k.
+  Proof.
+    induction k as [|k IH]; intros x items rest cl.
+    - cbn [dfs dfs_steps]. destruct (mem_key x items) eqn:Em; [|exact I].
+      intros f. cbn [Nat.add]. apply loop_found. exact Em.
+    - cbn [dfs dfs_steps]. destruct (mem_key x items) eqn:Em.
+      + intros f. cbn [Nat.add]. apply loop_found. exact Em.
+      + assert (Hx : ~ In x items) by (apply mem_key_false; exact Em).
+        pose proof (children_sim k x items rest cl IH Hx (preds x) [] eq_refl) as Hc.
+        cbv zeta in Hc. cbn [length] in Hc.
+        destruct (scan_children (fun p => dfs k p (x :: items)) (preds x)) as [r| |] eqn:ES.
+        * intros f. cbn [Nat.add]. rewrite loop_first by exact Em. rewrite Hc.
+          cbn [rev]. rewrite <- app_assoc. reflexivity.
+        * intros f. cbn [Nat.add]. rewrite loop_first by exact Em. apply Hc.
+        * exact I.
+  Qed.
+
+  (* more fuel never changes a finished run *)
+  Lemma fc_loop_more_fuel fuel : forall stack cl its l m,
+    fc_loop klt g fuel stack cl its = FcDone l -> fc_loop klt g (fuel + m) stack cl its = FcDone l.
+  Proof.
+    induction fuel as [|f IH]; intros stack cl its l m H; [discriminate H|].
+    cbn [Nat.add]. destruct stack as [|[x i] rest]; [exact H|].
+    cbn [fc_loop] in *.
+    destruct (Nat.eqb i 0 && mem_key x its); [exact H|].
+    destruct (negb (Nat.eqb i (length (preds x)))); apply IH; exact H.
+  Qed.
+
+  (* ---------- facts about scan_children ---------- *)
+
+  Lemma scan_found f ps r : scan_children f ps = DFound r -> exists p, In p ps /\ f p = DFound r.
+  Proof.
+    induction ps as [|p t IH]; cbn [scan_children]; [discriminate|].
+    destruct (f p) as [r'| |] eqn:E; intros H.
+    - exists p. split; [left; reflexivity | rewrite E; exact H].
+    - destruct (IH H) as [q [Hq Hf]]. exists q. split; [right; exact Hq | exact Hf].
+    - discriminate H.
+  Qed.
+
+  Lemma scan_exhausted f ps : scan_children f ps = DExhausted -> forall p, In p ps -> f p = DExhausted.
+  Proof.
+    induction ps as [|p t IH]; cbn [scan_children]; intros H q Hq; [destruct Hq|].
+    destruct (f p) as [r'| |] eqn:E; try discriminate H.
+    destruct Hq as [Hq|Hq]; [subst q; exact E | apply IH; assumption].
+  Qed.
+
+  Lemma scan_depth f ps : scan_children f ps = DDepth -> exists p, In p ps /\ f p = DDepth.
+  Proof.
+    induction ps as [|p t IH]; cbn [scan_children]; [discriminate|].
+    destruct (f p) as [r'| |] eqn:E; intros H.
+    - discriminate H.
+    - destruct (IH H) as [q [Hq Hf]]. exists q. split; [right; exact Hq | exact Hf].
+    - exists p. split; [left; reflexivity | exact E].
+  Qed.
+
+  (* ---------- soundness of the reference search ---------- *)
+
+  Lemma chain_cons x y t : dep x y -> chain (y :: t) -> chain (x :: y :: t).
+  Proof. intros H1 H2. cbn [chain]. split; assumption. Qed.
+
+  Lemma dfs_sound k : forall x items r, dfs k x items = DFound r ->
+    exists pre z, r = pre ++ [z] /\ hd z pre = x /\ chain r /\ In z (pre ++ items) /\ NoDup pre /\ (forall y, In y pre -> ~ In y items).
+  Proof.
+    induction k as [|k IH]; intros x items r H; cbn [dfs] in H.
+    - destruct (mem_key x items) eqn:Em; [|discriminate H].
+      injection H as <-. exists [], x. cbn. repeat split; [apply mem_key_true; exact Em | constructor | intros y []].
+    - destruct (mem_key x items) eqn:Em.
+      + injection H as <-. exists [], x. cbn. repeat split; [apply mem_key_true; exact Em | constructor | intros y []].
+      + destruct (scan_children (fun p => dfs k p (x :: items)) (preds x)) as [r'| |] eqn:ES; try discriminate H.
+        injection H as <-.
+        apply scan_found in ES. destruct ES as [p [Hp Hd]].
+        apply IH in Hd. destruct Hd as [pre [z [Hr [Hh [Hc [Hz [Hnd Hdis]]]]]]].
+        apply mem_key_false in Em.
+        exists (x :: pre), z. subst r'. repeat split.
+        * destruct pre as [|a pre]; cbn in Hh |- *.
+          -- subst z. split; [apply preds_In; exact Hp | exact I].
+          -- subst a. split; [apply preds_In; exact Hp | exact Hc].
+        * cbn [app]. apply in_app_or in Hz. destruct Hz as [Hz|[Hz|Hz]].
+          -- right. apply in_or_app. left. exact Hz.
+          -- left. exact Hz.
+          -- right. apply in_or_app. right. exact Hz.
+        * constructor; [|exact Hnd]. intros Hin. apply (Hdis x Hin). left. reflexivity.
+        * intros y [Hy|Hy]; [subst y; exact Em|]. intros Hi. apply (Hdis y Hy). right. exact Hi.
+  Qed.
+
+  (* ---------- the depth budget: the number of distinct nodes is enough ---------- *)
+
+  Lemma dfs_no_depth (V : list key) : (forall x y, dep x y -> In y V) ->
+    forall k x items, In x V -> NoDup items -> incl items V -> length V <= k + length items -> dfs k x items <> DDepth.
+  Proof.
+    intros Hclosed. induction k as [|k IH]; intros x items Hx Hnd Hincl Hlen; cbn [dfs].
+    - destruct (mem_key x items) eqn:Em; [discriminate|]. exfalso.
+      apply mem_key_false in Em.
+      assert (Hl : length (x :: items) <= length V).
+      { apply NoDup_incl_length; [constructor; assumption|]. intros y [Hy|Hy]; [subst y; exact Hx | apply Hincl; exact Hy]. }
+      cbn [length] in Hl. lia.
+    - destruct (mem_key x items) eqn:Em; [discriminate|]. apply mem_key_false in Em.
+      destruct (scan_children (fun p => dfs k p (x :: items)) (preds x)) as [r'| |] eqn:ES; try discriminate.
+      exfalso. apply scan_depth in ES. destruct ES as [p [Hp Hd]]. revert Hd. apply IH.
+      + apply (Hclosed x). apply preds_In. exact Hp.
+      + constructor; assumption.
+      + intros y [Hy|Hy]; [subst y; exact Hx | apply Hincl; exact Hy].
+      + cbn [length]. lia.
+  Qed.
+
+  (* ---------- the number of iterations ---------- *)
+
+  Lemma children_steps_bound (f : key -> dres) (s : key -> nat) c ps :
+    (forall p, s p <= c) -> children_steps f s ps <= length ps * (c + 1).
+  Proof.
+    intros Hs. induction ps as [|p t IH]; cbn [children_steps length]; [lia|].
+    specialize (Hs p). destruct (f p); cbn [Nat.mul]; lia.
+  Qed.
+
+  Lemma dfs_steps_bound k : forall x items, dfs_steps k x items <= fc_cost (length g) k.
+  Proof.
+    induction k as [|k IH]; intros x items; cbn [dfs_steps fc_cost]; destruct (mem_key x items); try lia.
+    pose proof (children_steps_bound (fun p => dfs k p (x :: items)) (fun p => dfs_steps k p (x :: items))
+                  (fc_cost (length g) k) (preds x) (fun p => IH p (x :: items))) as Hb.
+    pose proof (preds_length x) as Hl.
+    assert (length (preds x) * (fc_cost (length g) k + 1) <= length g * (fc_cost (length g) k + 1))
+      by (apply Nat.mul_le_mono_r; exact Hl).
+    lia.
+  Qed.
+
+  (* ---------- completeness of the reference search: exhaustion means every walk is repetition-free ---------- *)
+
+  Lemma dfs_exhausted_walks : forall l k x items, dfs k x items = DExhausted -> chain (x :: l) ->
+    NoDup (x :: l) /\ (forall y, In y (x :: l) -> ~ In y items).
+  Proof.
+    induction l as [|y l IH]; intros k x items H Hc.
+    - destruct k; cbn [dfs] in H; destruct (mem_key x items) eqn:Em; try discriminate H.
+      apply mem_key_false in Em. split; [constructor; [intros []|constructor]|]. intros y [Hy|[]]. subst y. exact Em.
+    - destruct k as [|k]; cbn [dfs] in H; destruct (mem_key x items) eqn:Em; try discriminate H.
+      apply mem_key_false in Em.
+      destruct (scan_children (fun p => dfs k p (x :: items)) (preds x)) as [r'| |] eqn:ES; try discriminate H.
+      destruct Hc as [Hd Hc].
+      pose proof (scan_exhausted _ _ ES y (proj2 (preds_In x y) Hd)) as Hy.
+      destruct (IH k y (x :: items) Hy Hc) as [Hnd Hdis].
+      split.
+      + constructor; [|exact Hnd]. intros Hin. apply (Hdis x Hin). left. reflexivity.
+      + intros z [Hz|Hz]; [subst z; exact Em|]. intros Hi. apply (Hdis z Hz). right. exact Hi.
   Qed.
 End Proofs.
